@@ -36,6 +36,9 @@ func main() {
 	case "C18":
 		vsched.TrackStates = false
 		runC18conn(R)
+	case "C11":
+		vsched.TrackStates = false
+		runC11sess(R)
 	case "C20":
 		runC20(R)
 	case "C13":
